@@ -384,6 +384,8 @@ def liftCase (pools : Pools) (par : Op) (paths : Seqs) (fanin : Option Op) (op :
   | "sort", .sort args nf rev =>
     match args with
     | [a] =>
+      -- only a plain ascending sort has the order of the merge that replaces it
+      if rev || nf || a.desc then Option.none else
       match merge with
       | some (me, md) =>
         match sortKeyOfExpr me md with
@@ -541,18 +543,12 @@ def optimizeSourcePaths (pools : Pools) (s : Seq) : Option Seq := walkEntries (s
 
 /-! ## Optimize -/
 
-def countPass : Seq → Nat
-  | .nil => 0
-  | .cons .pass r => countPass r + 1
-  | .cons _ r => countPass r
-
 inductive OptResult where
   | ok (s : Seq)
   | error                       -- Optimize returned an error
-  | panicDuplicateOp            -- `panic("Duplicate op value")` in inferDemandSeqOutWith
 
-/-- `Optimizer.Optimize`.  `insertDemand` keys a map by op *pointer*; every `Pass` left in the
-    DAG at that point is the shared `dag.PassOp`, so two of them at the top level panic. -/
+/-- `Optimizer.Optimize`.  (`insertDemand` only fills `SeqScan.Fields`, which the sequence
+    runtime does not read; it is compared separately.) -/
 def optimize (pools : Pools) (s : Seq) : OptResult :=
   let s := mergeFilters s
   let s := removePassOps s
@@ -560,9 +556,7 @@ def optimize (pools : Pools) (s : Seq) : OptResult :=
   let s := mergeFilters s
   match optimizeSourcePaths pools s with
   | Option.none => .error
-  | some s =>
-    if countPass s ≥ 2 then .panicDuplicateOp
-    else .ok (removePassOps s)
+  | some s => .ok (removePassOps s)
 
 /-- value of `o.nent` after `Optimize` (before `Parallelize`). -/
 def nentOf (pools : Pools) (s : Seq) : Nat :=
